@@ -25,7 +25,8 @@ func init() {
 		run:       runC16,
 		decided: "R1 each of the six callback lists is invoked only at its designated sites and under its designated guards (first-startup only when not upgrading and not restarting; startup before the servers start; restart before the new instance starts; restart-failed only in the deferred failure handler; shutdown after Stop on the success path and in ShutdownCallbacks; final-shutdown only in ShutdownCallbacks), and ShutdownCallbacks is reachable only through the once-guarded signal path; " +
 			"R2 a reload hands the old instance's wait group to the new instance; R3 SIGTERM runs callbacks, then Stop, then exits; " +
-			"R4 once the new instance has started, Restart cannot return the old instance or report failure.",
+			"R4 once the new instance has started, Restart cannot return the old instance or report failure; " +
+			"R5 an instance whose start failed is spliced out of the instance list on every error exit (the deferred splice is keyed on the error variable every error return reports through), so process shutdown never runs callbacks of an instance that never went live.",
 		notDecided: "trace-level conformance over all histories; exactly-once under concurrent signals beyond the sync.Once guard.",
 	})
 	register("C07", &propSpec{
@@ -528,16 +529,20 @@ func isDeferredClosure(parent, g *ssa.Function) bool {
 }
 
 func c08R4(h H) {
+	h.r.Rule("R4", "cleanup-flag discipline: in startWithListenerFds and Instance.Restart a deferred function undoes work when a captured error variable is non-nil; every return that reports an error must therefore return that variable itself or lie behind its non-nil test (a shadowed error skips the undo code)", 6)
+	cleanupFlagRule(h, "R4", []string{"startWithListenerFds", "(*Instance).Restart"})
+}
+
+func cleanupFlagRule(h H, rule string, names []string) {
 	r := h.r
-	r.Rule("R4", "cleanup-flag discipline: in startWithListenerFds and Instance.Restart a deferred function undoes work when a captured error variable is non-nil; every return that reports an error must therefore return that variable itself or lie behind its non-nil test (a shadowed error skips the undo code)", 6)
-	for _, name := range []string{"startWithListenerFds", "(*Instance).Restart"} {
-		fn := h.fn("R4", "", name)
+	for _, name := range names {
+		fn := h.fn(rule, "", name)
 		if fn == nil {
 			continue
 		}
 		ev, _ := deferredErrVar(fn)
 		if ev == nil {
-			r.Fail("R4", "casket."+name+"/deferred-undo", fn.Pos(), "no deferred undo code keyed on the error variable found")
+			r.Fail(rule, "casket."+name+"/deferred-undo", fn.Pos(), "no deferred undo code keyed on the error variable found")
 			continue
 		}
 		nonNil := nilEdges(fn, false, func(v ssa.Value) bool {
@@ -560,11 +565,11 @@ func c08R4(h H) {
 				isVar = true
 			}
 			ok2 := isVar || onlyVia(fn, rt, nonNil)
-			r.Check(ok2, "R4", sprintf("casket.%s/error-return#%d", name, k), rt.Pos(),
+			r.Check(ok2, rule, sprintf("casket.%s/error-return#%d", name, k), rt.Pos(),
 				"the error exit reports through the variable the deferred undo code inspects", describe(ev2))
 		}
 		if k == 0 {
-			r.Unresolve("R4", name+": no error returns found")
+			r.Unresolve(rule, name+": no error returns found")
 		}
 	}
 }
@@ -835,6 +840,9 @@ func runC16(r *Report, p *Program) {
 		r.Check(bad == "" && n > 0, "R4", "casket.(*Instance).Restart/after-new-instance-started", startNew[0].Pos(),
 			"once the new instance is serving, Restart returns it with a nil error (anything else runs OnRestartFailed and hands the caller a stopped instance)", "offending return: "+bad)
 	}
+
+	r.Rule("R5", "no callbacks of an instance that never went live: startWithListenerFds appends the instance to the instance list up front and a deferred function splices it out when the captured error variable is non-nil; every error return reports through that variable (or lies behind its non-nil test), so a failed start or reload leaves no entry whose OnShutdown/OnFinalShutdown the process shutdown would run", 3)
+	cleanupFlagRule(h, "R5", []string{"startWithListenerFds"})
 }
 
 // errNonNilAfter: the edge(s) taken when the error result of the given call is non-nil (the failure path of that call).
